@@ -407,7 +407,8 @@ def s_materialize_reshape_known_data(ctx):
     I.models[_ir_utils.get_numpy_value] = lambda interp, v: None
     out = W.value("out", dims=ostatic, rt=ort_, dtype=ir.DataType.FLOAT)
     context = SObj(object, "context")
-    root = W.node("Reshape", [data, shape_in], outputs=[out], attrs={})
+    az0 = ctx.choose(2, "allowzero of the matched Reshape: absent / 1")
+    root = W.node("Reshape", [data, shape_in], outputs=[out], attrs=({} if az0 == 0 else {"allowzero": 1}))
     context.fields.update(output_values=[out], root=root, nodes=[root])
     rule = SObj(mod.MaterializeReshapeShape, "rule")
     try:
@@ -421,14 +422,16 @@ def s_materialize_reshape_known_data(ctx):
     made = []
     I.models[ir.tensor] = lambda interp, v, dtype=None, **k: (made.append((list(v), dtype)) or ("tensor", len(made)))
     r = I.call(I.getattr(rule, "rewrite"), [OpRecorder(), data, shape_in])
+    az = r.kwargs.get("allowzero") if isinstance(r, Call) else None
+    az = 0 if az is None else az          # an attribute passed as None is absent: ONNX default allowzero = 0
     ok = isinstance(r, Call) and r.op == "Reshape" and r.args[0] is data and isinstance(r.args[1], Call) and r.args[1].op == "Constant" \
-        and set(r.kwargs) <= {"allowzero"} and r.kwargs.get("allowzero", 0) in (0, 1) and len(made) == 1
-    ctx.check("C05.rules.MaterializeReshapeShape.replacement_is_reshape_of_data_by_a_constant_with_allowzero", ok, CL09)
+        and set(r.kwargs) <= {"allowzero"} and az in (0, 1) and len(made) == 1
+    ctx.check("C09.rules.MaterializeReshapeShape.replacement_is_reshape_of_data_by_a_constant", ok, CL09)
     if not ok:
         return
     ctx.cover("MaterializeReshapeShape.known_data.fired")
     target = [term(d) for d in made[0][0]]
-    valid, outs, _q = reshape_semantics(target, drt, bool(r.kwargs.get("allowzero", 0)))
+    valid, outs, _q = reshape_semantics(target, drt, bool(az))
     same_count = prod(drt) == prod(ort_)      # the original Reshape produced the annotated output from this data
     ctx.check("C09.rules.MaterializeReshapeShape.rewritten_reshape_is_valid_for_every_binding_the_original_accepts", z3.Implies(same_count, valid),
               CL09 + " / 'The optimized model accepts exactly the inputs the original accepted'")
